@@ -3,6 +3,7 @@ package lib
 import (
 	"fmt"
 	"math"
+	"strings"
 
 	"pgregory.net/rapid"
 )
@@ -162,7 +163,7 @@ func GenSelect(t *rapid.T, kind StoreKind, pairs []Pair, o SelOpts) *Stmt {
 				if o.Aliases && rapid.IntRange(0, 3).Draw(t, "aliased") != 0 {
 					if p, ok := aliasPrefix[e.T]; ok {
 						seq++
-						f.Alias = fmt.Sprintf("%s%d", p, seq)
+						f.Alias = aliasName(t, p, seq)
 					}
 				}
 				dup := false
@@ -248,6 +249,18 @@ func genOrder(t *rapid.T, st *Stmt) {
 	}
 }
 
+// aliasName: mostly a plain word; now and then a name that only backquotes
+// can spell (a blank or a dash inside, upper case that must be kept).
+func aliasName(t *rapid.T, prefix string, seq int) string {
+	switch rapid.IntRange(0, 11).Draw(t, "nameSpelling") {
+	case 0:
+		return fmt.Sprintf("%s %d", prefix, seq)
+	case 1:
+		return fmt.Sprintf("%s-%d", strings.ToUpper(prefix), seq)
+	}
+	return fmt.Sprintf("%s%d", prefix, seq)
+}
+
 // genAggregateSelect: group columns (each a GROUP BY expression) + aggregate
 // fields; every non-aggregate select field is one of the GROUP BY expressions.
 func genAggregateSelect(t *rapid.T, c *GenCtx, st *Stmt, o SelOpts) {
@@ -297,7 +310,7 @@ func genAggregateSelect(t *rapid.T, c *GenCtx, st *Stmt, o SelOpts) {
 			}
 		}
 		seq++
-		name := fmt.Sprintf("g%d", seq)
+		name := aliasName(t, "g", seq)
 		st.Fields = append(st.Fields, SelField{E: e, Alias: name})
 		st.Group = append(st.Group, name)
 		c.addAlias(name, e)
@@ -325,7 +338,7 @@ func genAggregateSelect(t *rapid.T, c *GenCtx, st *Stmt, o SelOpts) {
 		seq++
 		f := SelField{E: e}
 		if rapid.Bool().Draw(t, "aggAliased") {
-			f.Alias = fmt.Sprintf("a%d", seq)
+			f.Alias = aliasName(t, "a", seq)
 			if e.T == TyInt || e.T == TyFloat {
 				aggRefs = append(aggRefs, Ref(f.Alias, e.T))
 			}
